@@ -29,8 +29,7 @@ let b01 b = if b then "1" else "0"
 let zi z = string_of_int (int_of_z z)
 
 let fctx_s = function FW -> "FW" | FS -> "FS" | FA -> "FA"
-let fmode_s = function MU -> "U" | ML -> "L"
-let hck_s = function KRead -> "R" | KFlush m -> "F" ^ fmode_s m | KEnd -> "E"
+let hck_s = function KRead -> "R" | KFlush -> "F" | KEnd -> "E"
 
 let io_s = function
   | IoRd1 -> "Rd1" | IoRd2 -> "Rd2" | IoRd3 -> "Rd3" | IoRd4 -> "Rd4"
@@ -40,8 +39,7 @@ let io_s = function
   | IoRcvAcq w -> "RcvAcq." ^ b01 w | IoRcvWc w -> "RcvWc." ^ b01 w | IoRcvCwf w -> "RcvCwf." ^ b01 w
   | IoRcvApp w -> "RcvApp." ^ b01 w | IoRcvRel w -> "RcvRel." ^ b01 w
   | IoHw1 -> "Hw1" | IoHw2 -> "Hw2" | IoTry -> "Try"
-  | IoFlush m -> "Flush." ^ fmode_s m | IoSubL k -> "SubL." ^ zi k | IoSubR k -> "SubR." ^ zi k
-  | IoSubW (k, t) -> "SubW." ^ zi k ^ "." ^ zi t
+  | IoFlush -> "Flush" | IoSubL k -> "SubL." ^ zi k
   | IoRelX -> "RelX" | IoHwExn -> "HwExn" | IoNotify -> "Notify" | IoRelL -> "RelL"
   | IoHw3 -> "Hw3" | IoHw4 -> "Hw4" | IoHw5 -> "Hw5" | IoHw6 -> "Hw6" | IoHw7 -> "Hw7"
   | IoHcAcq k -> "HcAcq." ^ hck_s k | IoHcTot k -> "HcTot." ^ hck_s k | IoHcConn k -> "HcConn." ^ hck_s k
@@ -228,7 +226,7 @@ let do_explore p maxstates maxarr =
     let sends = [SRBlock; SRGone; SRErr; SR (z_of_int 1); SR pend] in
     let io_choices =
       (match s.io with
-       | IoFlush _ -> List.map (fun r -> CIo (r, Z0)) sends
+       | IoFlush -> List.map (fun r -> CIo (r, Z0)) sends
        | IoHcTot _ -> [CIo (SRBlock, Z0); CIo (SRBlock, pend)]
        | _ -> [CIo (SRBlock, Z0)]) in
     let w_choices = (match s.wk with WFlush _ -> List.map (fun r -> CW r) sends | _ -> [CW SRBlock]) in
